@@ -158,11 +158,20 @@ pub fn not(vm: &mut Vm) -> Result<VCell, Error> {
 
 pub fn is_list(vm: &mut Vm) -> Result<VCell, Error> {
     pop_argc(vm, 1, Some(1), "list?")?;
+    // Walk the list with two cursors, one at twice the speed of the other: on a
+    // circular list they meet, and a circular list is not a list.
     let mut rest = vm.heap.get(vm.stack.pop()?);
+    let mut slow = rest.clone();
     loop {
-        if !rest.is_pair() {
-            return Ok(rest.is_nil().into());
+        for _ in 0..2 {
+            if !rest.is_pair() {
+                return Ok(rest.is_nil().into());
+            }
+            rest = vm.heap.get(&rest.as_cdr()?);
         }
-        rest = vm.heap.get(&rest.as_cdr()?);
+        slow = vm.heap.get(&slow.as_cdr()?);
+        if rest.is_pair() && rest == slow {
+            return Ok(false.into());
+        }
     }
 }
